@@ -182,6 +182,42 @@ def search(ctx):
         except Exception as ex:
             import traceback
             ctx.violation("C04:raises:auto:%s" % type(ex).__name__, "default-theory scaling raised %r" % (ex,), dict(kind="raises", tb=traceback.format_exc()[-600:]))
+    # SEVERAL illuminations in one calculation (wavelengths as an array or labelled, one wavelength in two labelled
+    # polarisations), with theories working in spherical AND in cylindrical coordinates: every colour scales with the rest
+    labelled_wl = lambda f: xr.DataArray(np.array([0.66, 0.52]) * f, dims='illumination', coords={'illumination': ['red', 'green']})
+    two_pols = xr.DataArray(np.array([[1., 0.], [0., 1.]]), coords=[('illumination', ['horizontal', 'vertical']), ('vector', ['x', 'y'])])
+    illums = [("2 wavelengths (array)", lambda f: np.array([0.66, 0.52]) * f, (1.0, 0.0)), ("2 labelled wavelengths", labelled_wl, (0.6, 0.8)),
+              ("1 wavelength, 2 labelled polarisations", lambda f: 0.66 * f, two_pols)]
+    mths = [("Mie", lambda: Mie()), ("MieLens", lambda: MieLens(lens_angle=0.8)), ("Lens(Mie)", lambda: Lens(0.8, Mie(), quad_npts_theta=30, quad_npts_phi=30)),
+            ("Multisphere", lambda: Multisphere())]
+    for i in range(ctx.n(12, 48)):
+        iname, wl, pol = illums[i % 3]
+        name, mk = mths[(i // 3) % 4]
+        l = [3.7, 1000.0, 0.25, 2.0 ** -7][(i // 12) % 4] * (1.0 if i < 12 else float(rng.uniform(0.5, 2.0)))
+        r0 = float(rng.uniform(0.3, 0.6))
+        c = (float(rng.uniform(0.2, 0.8)), float(rng.uniform(0.2, 0.8)), float(rng.uniform(4, 8)))
+        if name == "Multisphere":
+            sc = Spheres([Sphere(n=1.59, r=r0, center=c), Sphere(n=1.5, r=0.8 * r0, center=(c[0] + 2.5 * r0, c[1], c[2] + 1.0))], warn=False)
+        else:
+            sc = Sphere(n=1.59, r=r0, center=c)
+        det, dets = detector_grid((4, 3), 0.15), detector_grid((4, 3), 0.15 * l)
+        info = dict(kind="multi-illumination", theory=name, illumination=iname, scale=l, scatterer=repr(sc))
+        ctx.tried("multi-illumination", (name, iname, l))
+        try:
+            tol = {"Lens(Mie)": 1e-8, "Multisphere": 1e-6}.get(name, 1e-9)
+            for fn in (calc_holo, calc_field, calc_intensity):
+                a = fn(det, sc, theory=mk(), medium_index=T.NMED, illum_wavelen=wl(1.0), illum_polarization=pol).values
+                b = fn(dets, scale_scatterer(sc, l), theory=mk(), medium_index=T.NMED, illum_wavelen=wl(l), illum_polarization=pol).values
+                if not (_rel(b, a) <= tol):
+                    ctx.violation("C04:multi-illumination:%s" % name, "%s, %s: multiplying every length by %g changed %s (rel %.3g)" % (name, iname, l, fn.__name__, _rel(b, a)), dict(info, fn=fn.__name__))
+                    break
+                cidx = fn(det, reindex_scatterer(sc, T.NMED), theory=mk(), medium_index=1.0, illum_wavelen=wl(1.0 / T.NMED), illum_polarization=pol).values
+                if not (_rel(cidx, a) <= max(tol, 1e-9)):
+                    ctx.violation("C04:multi-illumination:index:%s" % name, "%s, %s: (n, n_m, L) -> (n/n_m, 1, L/n_m) changed %s (rel %.3g)" % (name, iname, fn.__name__, _rel(cidx, a)), dict(info, fn=fn.__name__))
+                    break
+        except Exception as ex:
+            import traceback
+            ctx.violation("C04:raises:multi-illumination:%s:%s" % (name, type(ex).__name__), "%s with %s raised %r" % (name, iname, ex), dict(info, tb=traceback.format_exc()[-600:]))
     # cross sections over the whole range of length units (metres ... nanometres), absorbing / layered / cluster
     m = ctx.n(20, 200)
     for i in range(m):
